@@ -931,6 +931,10 @@ func (c *ScheduleConfig) Validate() error {
 			return errors.Errorf("create func of %v is not registered, maybe misspelled", scheduleConfig.Type)
 		}
 	}
+	// core.StringToSchedulePolicy panics on anything else (and a background job converts the served value).
+	if c.LeaderSchedulePolicy != "count" && c.LeaderSchedulePolicy != "size" {
+		return errors.Errorf("leader-schedule-policy %q is invalid, it should be count or size", c.LeaderSchedulePolicy)
+	}
 	return nil
 }
 
@@ -1156,6 +1160,10 @@ func (c *PDServerConfig) Validate() error {
 	}
 	if c.FlowRoundByDigit < 0 {
 		return errs.ErrConfigItem.GenWithStack("flow round by digit cannot be negative number")
+	}
+	// core.StringToKeyType panics on anything else.
+	if c.KeyType != "table" && c.KeyType != "raw" && c.KeyType != "txn" {
+		return errs.ErrConfigItem.GenWithStack("key type should be table, raw or txn")
 	}
 
 	return nil
